@@ -399,13 +399,43 @@ def gen_case(seed, cid, n_states=4, n_calls=3, ground_only=False, **kw):
     return {"id": cid, "tree": tree, "objs": objs, "states": states, "calls": calls}
 
 
-def rename_map(rng, params):
+def gen_eq_case(seed, cid, n_states=3, n_calls=6):
+    """an action whose precondition holds several (in)equalities between its parameters (pairwise distinct,
+    two equal and one different, ...): what a renaming must carry over constraint by constraint; the calls
+    repeat objects freely"""
+    rng = random.Random(seed * 1000003 + cid)
+    params = [["?a", "t1"], ["?b", "t1"], ["?c", rng.choice(["t1", "object"])]]
+    names = [p for p, _ in params]
+    pairs = [(names[i], names[j]) for i in range(3) for j in range(3) if i < j]
+    rng.shuffle(pairs)
+    members = []
+    for a, b in pairs[:rng.choice([2, 3, 3])]:
+        if rng.random() < 0.5:
+            a, b = b, a
+        eq = L(S("="), S(a), S(b))
+        members.append(eq if rng.random() < 0.3 else L(S("not"), eq))
+    g = Gen(rng, params, with_forall=False, with_numeric=False)
+    if rng.random() < 0.6:
+        members.insert(rng.randrange(len(members) + 1), g.atom())
+    pre = L(S("and"), *members)
+    eff = L(S("and"), *[g.simple_eff() for _ in range(rng.choice([1, 2]))])
+    tree = domain_tree([("act", params, pre, eff)])
+    objs = list(OBJS)
+    states = [random_state(rng, objs) for _ in range(n_states)]
+    calls = []
+    for args in calls_for(rng, params, objs, n_calls):
+        for si in range(n_states):
+            calls.append({"act": "act", "args": args, "s": si, "mode": "app"})
+    return {"id": cid, "tree": tree, "objs": objs, "states": states, "calls": calls}
+
+
+def rename_map(rng, params, kinds=("fresh", "perm", "perm", "chain", "param_i")):
     """an injective renaming of all the parameters: fresh names, a permutation of the existing ones or a chain
     (quantified variables ?z / ?w are never used as new names)"""
     names = [p for p, _ in params]
     if not names:
         return {}
-    kind = rng.choice(["fresh", "perm", "perm", "chain", "param_i"])
+    kind = rng.choice(list(kinds))
     if kind == "fresh":
         return {n: f"?n{i}" for i, n in enumerate(names)}
     if kind == "param_i":
